@@ -12,9 +12,9 @@ pub static DEF: PropDef = PropDef {
     title: "Bitmask AVPs: accessors return the constructor's arguments; all 32 bits survive",
     rule: "The four bitmask kinds (framing capabilities: async/sync; bearer capabilities: digital/analog; bearer type: analog/digital; framing type: analog/digital, in constructor-parameter order). \
 (pairs) all 4 x bool^2 constructions: the accessor named after the first / second parameter returns the first / second argument. (words) raw 32-bit words - 0, !0, every single bit, every pair of bits, and \
-random words - received from the wire as an AVP (and through the kind's own try_read, confirmed through Debug): decode then encode reproduces all 32 bits, and each accessor equals the bit that the \
+random words - received from the wire as an AVP (and through the kind's own try_read): decode then encode reproduces all 32 bits, and each accessor equals the bit that the \
 constructor sets for its parameter, whatever the other 31 bits are. Non-trivial = x != y, or a word with bits outside the two flag bits; distinct by (kind, arguments or word).",
-    assumptions: &["the private raw word is observed through the encoder output and the derived Debug text"],
+    assumptions: &["the private raw word is observed through the encoder output only (the Debug text, which no property constrains, is not used)"],
     parts,
     run_tape,
     run_enum,
@@ -99,12 +99,6 @@ fn by_wire(kind: usize, w: u32) -> Option<(bool, bool, u32, u32)> {
         if !same {
             return None;
         }
-        let dbg = format!("{:?}", a);
-        let dw = dbg.find("data: ").and_then(|i| {
-            let rest = &dbg[i + 6..];
-            let end = rest.find(|c: char| !c.is_ascii_digit()).unwrap_or(rest.len());
-            rest[..end].parse::<u32>().ok()
-        })?;
         let mut wr = VecWriter::new();
         a.write(&mut wr);
         if wr.data.len() != 10 || wr.data[..6] != b[..6] {
@@ -126,7 +120,8 @@ fn by_wire(kind: usize, w: u32) -> Option<(bool, bool, u32, u32)> {
                 _ => return None,
             }
         }
-        Some((f, s, u32::from_be_bytes(wr.data[6..10].try_into().unwrap()), dw))
+        let back = u32::from_be_bytes(wr.data[6..10].try_into().unwrap());
+        Some((f, s, back, back))
     });
     match r {
         Caught::Ok(x) => x,
@@ -192,9 +187,7 @@ pub fn check_word(kind: usize, w: u32, family: &'static str, cx: &mut Cx) -> Res
             if back != w {
                 return fail(format!("decode then encode changed the word: {:#010x} -> {:#010x}", w, back), render());
             }
-            if dbg != w {
-                return fail(format!("the stored word ({:#010x} per Debug) differs from the received word", dbg), render());
-            }
+            let _ = dbg;
             if f != (w & b1 != 0) || s != (w & b2 != 0) {
                 return fail(
                     format!("accessors report ({}, {}) for word {:#010x}; the constructor's own bits are {:#x} / {:#x}, i.e. ({}, {})", f, s, w, b1, b2, w & b1 != 0, w & b2 != 0),
